@@ -738,13 +738,11 @@ Proof.
     rewrite Hdec. simp_c. cbn [Z.eqb].
     destruct (prepare_ok sc rc rt cb w 0 av (R2 + 1) (R2 + 1) x0 x1 ph' R2 false [] 1 false true)
       as (st' & rows & num & Hrun & Hn1 & Hn2 & Hn3 & Hn4 & Hn5 & Hn6 & Hn7); try lia; auto.
-    - intros; discriminate.
     - intros i Hi. rewrite (VW_place true x0 x1 ph' w i HS Hw) by lia. apply Hd1. lia.
-    - intros; discriminate.
     - change (zlen (@nil prov)) with 0. lia.
     - change (zlen (@nil prov)) with 0. right. lia.
     - change (zlen (@nil prov)) with 0 in *. cbn [app] in Hrun. rewrite Hrun. cbn [fst snd].
-      assert (num = 1) by lia. subst num.
+      assert (Hnum1 : num = 1) by lia. rewrite Hnum1 in *.
       eexists. split; [reflexivity|]. destruct st'. unfold c_set_scan. simp_c. simp_c_in Hn6. rewrite Hn4.
       split; [lia|]. rewrite <- Hsc in Hn7. apply Hn7. lia. }
   destruct H1 as (st1 & Hst1 & Hsc1 & HC1). rewrite Hst1.
